@@ -1,0 +1,19 @@
+//go:build verif
+
+package internal
+
+import "io"
+
+// Exported wrappers used by the verification harness to run the
+// unexported text-level functions in-process. Only compiled with the
+// "verif" build tag.
+
+// VerifWriteInvertedCffTag calls writeInvertedCffTag.
+func VerifWriteInvertedCffTag(w io.Writer, bs []byte) error {
+	return writeInvertedCffTag(w, bs)
+}
+
+// VerifPrintImportAlias calls printImportAlias.
+func VerifPrintImportAlias(importPath, alias string, addImports map[string]string, aliases map[string]struct{}) string {
+	return printImportAlias(importPath, alias, addImports, aliases)
+}
